@@ -118,6 +118,11 @@ theorem View.uncheckedOK (v : View ν α) : v.WF → UncheckedOK v := by
     simp only [lens_length, hw.2.1] at hl
     simp only [View.getUnchecked, pair_of_length_two hl]
     exact ih hw.1 _ c hin hc
+  | tmap s ih =>
+    intro hw idx c hin hc
+    simp only [View.WF] at hw
+    simp only [View.getUnchecked]
+    exact ih hw _ c hin hc
   | range s rs ih =>
     intro hw idx c hin hc
     simp only [View.WF] at hw
